@@ -8,6 +8,7 @@ package c02
 
 import (
 	"bytes"
+	"crypto/sha256"
 	"fmt"
 	"strings"
 
@@ -185,6 +186,103 @@ func validResults(chain uint64) *lib.CertificateResult {
 	return &lib.CertificateResult{RewardRecipients: &lib.RewardRecipients{PaymentPercents: []*lib.PaymentPercents{{Address: bytes.Repeat([]byte{9}, 20), Percent: 100, ChainId: chain}}}}
 }
 
+// richResults: valid results with a random selection of the optional top-level fields populated
+func richResults(r interface{ Intn(int) int }, chain uint64) *lib.CertificateResult {
+	res := validResults(chain)
+	if r.Intn(3) == 0 {
+		res.SlashRecipients = &lib.SlashRecipients{DoubleSigners: []*lib.DoubleSigner{{Id: bytes.Repeat([]byte{7}, 48), Heights: []uint64{uint64(1 + r.Intn(5))}}}}
+	}
+	if r.Intn(3) == 0 {
+		res.Orders = &lib.Orders{ResetOrders: [][]byte{bytes.Repeat([]byte{byte(1 + r.Intn(200))}, 20)}}
+	}
+	if r.Intn(3) == 0 {
+		res.Checkpoint = &lib.Checkpoint{Height: uint64(1 + r.Intn(100)), BlockHash: h32(byte(r.Intn(200)))}
+	}
+	if r.Intn(4) == 0 {
+		res.Retired = true
+	}
+	if r.Intn(3) == 0 {
+		res.DexBatch = &lib.DexBatch{Committee: chain, Receipts: []uint64{uint64(r.Intn(9))}, LockedHeight: uint64(r.Intn(50))}
+	}
+	if r.Intn(3) == 0 {
+		res.RootDexBatch = &lib.DexBatch{Committee: chain, Receipts: []uint64{uint64(r.Intn(9))}, LockedHeight: uint64(r.Intn(50))}
+	}
+	return res
+}
+
+// resDigest: the digest of carried results computed WITHOUT the library's CertificateResult.Hash()/lib.Marshal:
+// sha-256 over the deterministic protobuf encoding of every field of the message
+func resDigest(res *lib.CertificateResult) []byte {
+	bz, err := proto.MarshalOptions{Deterministic: true}.Marshal(res)
+	if err != nil {
+		panic(err)
+	}
+	h := sha256.Sum256(bz)
+	return h[:]
+}
+
+// alterResults returns a copy of res that differs from it in exactly one top-level field (still CheckBasic-valid)
+func alterResults(res *lib.CertificateResult, k int, chain uint64) (*lib.CertificateResult, string) {
+	out := proto.Clone(res).(*lib.CertificateResult)
+	switch k % 9 {
+	case 0:
+		out.RewardRecipients.PaymentPercents[0].Address = bytes.Repeat([]byte{8}, 20)
+		return out, "reward-recipients"
+	case 1:
+		if out.SlashRecipients == nil {
+			out.SlashRecipients = &lib.SlashRecipients{DoubleSigners: []*lib.DoubleSigner{{Id: bytes.Repeat([]byte{6}, 48), Heights: []uint64{3}}}}
+		} else {
+			out.SlashRecipients = nil
+		}
+		return out, "slash-recipients"
+	case 2:
+		if out.Orders == nil {
+			out.Orders = &lib.Orders{ResetOrders: [][]byte{bytes.Repeat([]byte{0xEE}, 20)}}
+		} else {
+			out.Orders.ResetOrders = append(out.Orders.ResetOrders, bytes.Repeat([]byte{0xEF}, 20))
+		}
+		return out, "orders"
+	case 3:
+		if out.Checkpoint == nil {
+			out.Checkpoint = &lib.Checkpoint{Height: 5, BlockHash: h32(0x31)}
+		} else {
+			out.Checkpoint.Height++
+		}
+		return out, "checkpoint"
+	case 4:
+		out.Retired = !out.Retired
+		return out, "retired"
+	case 5:
+		if out.DexBatch == nil {
+			out.DexBatch = &lib.DexBatch{Committee: chain, Receipts: []uint64{1}}
+		} else {
+			out.DexBatch.LockedHeight++
+		}
+		return out, "dex-batch"
+	case 6: // attached where the committee signed none / swapped where it signed one
+		if out.RootDexBatch == nil {
+			out.RootDexBatch = &lib.DexBatch{Committee: chain, Receipts: []uint64{1}}
+		} else {
+			out.RootDexBatch.Receipts = append(out.RootDexBatch.Receipts, 7)
+		}
+		return out, "root-dex-batch"
+	case 7: // stripped / attached
+		if out.RootDexBatch != nil {
+			out.RootDexBatch = nil
+		} else {
+			out.RootDexBatch = &lib.DexBatch{Committee: chain + 1, LockedHeight: 9}
+		}
+		return out, "root-dex-batch"
+	default:
+		if out.DexBatch != nil {
+			out.DexBatch = nil
+		} else {
+			out.DexBatch = &lib.DexBatch{Committee: chain, LockedHeight: 2}
+		}
+		return out, "dex-batch"
+	}
+}
+
 // sign aggregates the signatures of the chosen member indices of committee c over the given payload
 func sign(c *committee, idxs []int, payload []byte) (sig []byte, bitmap []byte) {
 	mk := c.vs.MultiKey.Copy()
@@ -281,7 +379,7 @@ func Run(o *drv.Out) {
 				BlockHash: h32(0xAA), ResultsHash: h32(0xBB), Signature: &lib.AggregateSignature{Signature: bytes.Repeat([]byte{1}, 96), Bitmap: []byte{1}}}
 			hdr := validHeader(height, uint32(net), prev)
 			blk := &lib.Block{BlockHeader: hdr, Transactions: [][]byte{bytes.Repeat([]byte{1}, 100)}}
-			res := validResults(chain)
+			res := richResults(r, chain)
 			view := &lib.View{Height: height, Round: uint64(r.Intn(3)), Phase: lib.Phase_PRECOMMIT_VOTE, RootHeight: R, NetworkId: net, ChainId: chain}
 			idxs, _ := base()
 			var notes []string
@@ -290,7 +388,7 @@ func Run(o *drv.Out) {
 			signCom := com
 			// deviations applied BEFORE signing (honest signers sign the deviated content: still "correctly bound")
 			// and AFTER signing (re-targeting). Choose by variant.
-			dev := r.Intn(28)
+			dev := r.Intn(29)
 			dupHeader := false
 			if v == 0 {
 				dev = -1 // the valid pair itself
@@ -324,6 +422,9 @@ func Run(o *drv.Out) {
 					}
 				}
 				return nil, false
+			}
+			if v == 4 {
+				dev = 28 // always: the carried results differ from the signed ones in exactly one field
 			}
 			if v == 1 {
 				dev = 25 // always: the leader's PROPOSE_VOTE justification re-labelled as a commit certificate
@@ -462,7 +563,7 @@ func Run(o *drv.Out) {
 			if qc.Results == nil {
 				d.res = "nil"
 			} else {
-				d.res = fmt.Sprintf("%d,%s", b2i(resOK), drv.Hex(res.Hash()))
+				d.res = fmt.Sprintf("%d,%s", b2i(resOK), drv.Hex(resDigest(qc.Results)))
 			}
 			var ps []string
 			for _, p := range parts {
@@ -537,7 +638,7 @@ func Run(o *drv.Out) {
 				if qc.Header.Phase != lib.Phase_PRECOMMIT_VOTE || qc.Header.NetworkId != nn.net || qc.Header.ChainId != nn.chain || qc.Header.Height != nn.height {
 					o.Fail("C02:commit-wrongly-bound", "commit for another phase/network/chain/height", map[string]any{"op": op})
 				}
-				if !bytes.Equal(qc.BlockHash, decodedHash) || !bytes.Equal(qc.ResultsHash, res.Hash()) {
+				if !bytes.Equal(qc.BlockHash, decodedHash) || !bytes.Equal(qc.ResultsHash, resDigest(qc.Results)) {
 					o.Fail("C02:commit-hash-mismatch", "certificate hashes do not name the carried block/results", map[string]any{"op": op})
 				}
 			}
@@ -624,6 +725,12 @@ func applyPost(dev int, qc *lib.QuorumCertificate, keys []crypto.PrivateKeyI, nm
 		*notes = append(*notes, "retarget-phase")
 	case 25:
 		qc.Header.Phase = lib.Phase_PRECOMMIT_VOTE
+	case 28:
+		if qc.Results != nil {
+			var what string
+			qc.Results, what = alterResults(qc.Results, r.Intn(9), chain)
+			*notes = append(*notes, "results-swapped:"+what)
+		}
 	}
 }
 
